@@ -19,6 +19,7 @@ Directive syntax (each directive line starts with `//@`):
   //@hint after `<anchor text>`    proof text inserted after the statement ending at/after anchor
   //@| assert(...);
   //@hint before `<anchor text>`   proof text inserted immediately before the anchor text
+  //@prologue                      proof text inserted right after the body's opening brace
   //@spec                          contract spliced between signature and body
   //@| requires ...
   //@| ensures ...
@@ -85,7 +86,7 @@ def parse_template(text):
             if len(parts) != 3:
                 raise SystemExit(f"template: bad directive: {s}")
             d = dict(kind=m.group(1), file=parts[0], container=parts[1], name=parts[2],
-                     ret=None, subs=[], loops={}, hints=[], spec=[], keepattr=False, nobody=False,
+                     ret=None, subs=[], loops={}, hints=[], spec=[], prologue=[], keepattr=False, nobody=False,
                      line=i + 1)
             cur = None
             i += 1
@@ -119,6 +120,8 @@ def parse_template(text):
                     d["hints"].append((mm.group(1), mm.group(2), cur))
                 elif s.startswith("//@spec"):
                     cur = d["spec"]
+                elif s.startswith("//@prologue"):
+                    cur = d["prologue"]
                 elif s.startswith("//@keepattr"):
                     d["keepattr"] = True
                 elif s.startswith("//@nobody"):
@@ -372,6 +375,8 @@ def splice_fn(text, d, log):
 
     if body is not None and not d["nobody"]:
         bend = rs.match_close(toks, body)
+        if d["prologue"]:
+            inserts.append((toks[body].end, toks[body].end, "\n" + "\n".join("        " + l for l in d["prologue"]) + "\n"))
         # loops
         ordinal = 0
         k = body + 1
